@@ -474,10 +474,19 @@ class Monitor:
         except Exception:  # pylint: disable=broad-except
             return str(node)[:160]
 
-    def _call_detail(self, e, sid, nms, bindings, defines=False):
+    def _call_detail(self, e, sid, nms, bindings, defines=False, header=False):
         from loki import FindVariables
         b = bindings.get(id(e.node), ())
         enr = 'enriched' if e.node.routine else 'unenriched'
+        if header:
+            # read while the actual arguments are evaluated: a subscript or an operand of an actual
+            for _dn, intent, kind, bsid, actual in b:
+                inner = [v for a in FindVariables().visit(actual) for v in
+                         FindVariables().visit(getattr(a, 'dimensions', None) or ())]
+                if kind == 'expr':
+                    inner += list(FindVariables().visit(actual))
+                if any(v.name.lower() in nms for v in inner):
+                    return f'{enr}:intent-{intent or "none"}:subscript-or-operand-of-actual'
         for _dn, intent, kind, bsid, _actual in b:
             if bsid == sid:
                 if defines and self._is_subscript_in_call(e.node, nms):
@@ -547,7 +556,7 @@ class Monitor:
         ir = self.ir
         node = e.node
         if isinstance(node, ir.CallStatement):
-            return 'CallStatement:' + self._call_detail(e, sid, nms, bindings)
+            return 'CallStatement:' + self._call_detail(e, sid, nms, bindings, header=inner is None)
         if isinstance(node, ir.Assignment):
             return 'Assignment:' + self._assign_detail(node, nms)
         d = self._killer(e, inner, nms, sid)
@@ -746,6 +755,16 @@ class Monitor:
         elif not names & wnames:
             detail = 'write-not-found:' + (calld(wnode, True) if isinstance(wnode, ir.CallStatement)
                                            else node_kind(wnode))
+        elif self._raw_reader_lacks(t, rnode, names) is not None:
+            eff = self._raw_reader_lacks(t, rnode, names)
+            if isinstance(eff, ir.CallStatement):
+                detail = 'read-not-found:' + calld(eff, False)
+            elif isinstance(eff, ir.Assignment):
+                detail = 'read-not-found:Assignment:' + self._assign_detail(eff, tuple(names))
+            elif isinstance(eff, (ir.MultiConditional, ir.MaskedStatement)):
+                detail = f'read-not-found:use-after-may-definition-inside:{type(eff).__name__}'
+            else:
+                detail = f'read-not-found:{node_kind(eff)}'
         else:
             fr = FindReads(start=t['node'], candidate_set=fw.writes, clear_candidates_on_write=False)
             fr.visit(t['ir'])
@@ -777,6 +796,21 @@ class Monitor:
                     {'input': label, 'variable': base, 'inspection_node': self._src(t['node']),
                      'ir': t.get('label'), 'writer': self._src(wnode), 'reader': self._src(rnode),
                      'reported': sorted(t['reported'])})
+
+    def _raw_reader_lacks(self, t, rnode, names):
+        """the statement as FindReads sees it (SELECT CASE / WHERE constructs are leaves) if its uses lack the name"""
+        ir = self.ir
+        par = self._parents(self.kern.body)
+        inside = preorder(t['ir'])[0]
+        eff = rnode
+        x = par.get(id(rnode))
+        while x is not None and id(x) in inside:
+            if isinstance(x, (ir.MultiConditional, ir.MaskedStatement)):
+                eff = x
+            x = par.get(id(x))
+        if isinstance(eff, ir.LeafNode) and not names & self.nsets(eff)[1]:
+            return eff
+        return None
 
     def _parents(self, root):
         par = self.sets.get(('parents', id(root)))
@@ -930,9 +964,12 @@ def run_index(idx, rng, tier, ctx, pid, checks, nsub, pick_hz, budget=(8, 14), r
         try:
             ctxm = attach_all(r['kern'], r['callees'])
         except Exception as e:  # pylint: disable=broad-except
-            res['violations'].append({'key': f'dfa:attach-exception:{type(e).__name__}',
+            import traceback
+            fn = [f.name for f in traceback.extract_tb(e.__traceback__) if 'dataflow_analysis' in f.filename and not f.name.startswith('<')]
+            res['violations'].append({'key': f'dfa:attach-exception:{type(e).__name__}:{fn[-1] if fn else "?"}',
                                       'msg': f'dataflow_analysis_attached raised {type(e).__name__}: {e}'[:400],
-                                      'witness': {'source': case.source_h + case.source_k, 'mode': case.mode}})
+                                      'witness': {'source': case.source_h + case.source_k, 'mode': case.mode,
+                                                  'hazards': sorted(k for k, on in hz.items() if on)}})
             continue
         with ctxm:
             tasks = raw_tasks_for(case, r['kern'], rng, bool(hz.get('raw_kill'))) if raw else ()
